@@ -221,6 +221,43 @@ func (e *Ev) callStatic(fn *types.Func, recv *Term, args []Term, n *ast.CallExpr
 	if t, handled := e.lemmaCall(fn, key, b, recv, args, n); handled {
 		return t
 	}
+	// pointers that denote a location inside another object or a local variable (&x, &s.f, the
+	// receiver of s.f.M()): copy-in / copy-out through a temporary object. Sound as long as the
+	// callee does not retain the pointer (recorded as an assumption).
+	if !e.spec && !e.quiet {
+		var outs []func()
+		mat := func(t *Term) {
+			if t == nil || t.Loc == nil || t.S != "" {
+				return
+			}
+			pt, ok := t.T.Underlying().(*types.Pointer)
+			if !ok {
+				return
+			}
+			loc := t.Loc
+			v := e.load(loc, n)
+			r := e.freshRef("tmp" + sanitize(e.sortOf(pt.Elem())))
+			hl := &Loc{Kind: "heap", Name: e.heapName(pt.Elem()), Ref: r, T: pt.Elem()}
+			e.store(hl, Term{S: v.S, Sort: v.Sort, T: pt.Elem()}, n)
+			*t = Term{S: r, Sort: sInt, T: t.T}
+			e.g().Assumed["interior / local-variable pointers passed to "+key+" are modelled by copy-in/copy-out (the callee does not retain them)"] = true
+			outs = append(outs, func() {
+				nv := e.load(hl, n)
+				e.store(loc, nv, n)
+			})
+		}
+		mat(recv)
+		for i := range args {
+			mat(&args[i])
+		}
+		if len(outs) > 0 {
+			res := e.callStatic(fn, recv, args, n)
+			for _, f := range outs {
+				f()
+			}
+			return res
+		}
+	}
 	calleeBV := false
 	if m, ok := b.flag("intmode"); ok && m == "bv" {
 		calleeBV = true
